@@ -98,6 +98,7 @@ def make_inputs(kind, attrs, seed, cplx=False):
     X, Xn = grid(field(1, n, 0), 0), grid(field(2, nn, 100), 100)
     Y, Yn = yf(field(3, n, 0, 4), 0), yf(field(4, nn, 100, 4), 100)
     dim = "time"
+    W = None
     if kind == "ds":
         def tods(g, t0):
             return xr.Dataset({"a": g.isel(lat=slice(0, 2)).rename("a"), "b": g.isel(lat=2, drop=True).rename("b") * 2.0})
@@ -121,6 +122,10 @@ def make_inputs(kind, attrs, seed, cplx=False):
         X, Y = two(X, 0, 2), two(Y, 0, 2)
         Xn, Yn = two(grid(field(2, 4, 100), 100), 100, 2), two(yf(field(4, 4, 100, 4), 100), 100, 2)
         dim = ("t", "run")
+    elif kind == "wlat":
+        # user weights that are NAMED like one of their own coordinates (w = cos(lat) keeps the name 'lat')
+        W = np.cos(np.deg2rad(X.lat))
+        assert W.name == "lat"
     elif kind == "aux":
         # auxiliary non-index coordinates: a 2-D one over the (stacked) feature dims and a 1-D one along the sample dim
         def aux(o):
@@ -145,7 +150,7 @@ def make_inputs(kind, attrs, seed, cplx=False):
     for o in objs:
         for item in o if isinstance(o, list) else [o]:
             _attach(item, av)
-    return dict(X=X, Xnew=Xn, Y=Y, Ynew=Yn, dim=dim)
+    return dict(X=X, Xnew=Xn, Y=Y, Ynew=Yn, dim=dim, W=W)
 
 
 # ----------------------------------------------------------------------------- models
@@ -183,9 +188,9 @@ def build_fitted(model, inp):
     else:
         raise ValueError(model)
     if base in CROSS:
-        m.fit(inp["X"], inp["Y"], dim=inp["dim"])
+        m.fit(inp["X"], inp["Y"], dim=inp["dim"], weights_X=inp.get("W"))
     else:
-        m.fit(inp["X"], dim=inp["dim"])
+        m.fit(inp["X"], dim=inp["dim"], weights=inp.get("W"))
     if model in ROT:
         cls = {"EOFRotator": xe.single.EOFRotator, "ComplexEOFRotator": xe.single.ComplexEOFRotator, "CPCCARotator": xe.cross.CPCCARotator, "MCARotator": xe.cross.MCARotator}[model]
         r = cls(n_modes=2, power=2)
@@ -307,7 +312,7 @@ def rounds(tier, seed):
                         frontier.append(dict(model=mname, input=k, attrs=a, history=["codec:%s%s" % (c, ph)], leaf=True))
     # input structures that only matter for the (de)serialisation itself: every codec at depth 1
     for mname in (["EOF", "MCA"] if tier == "quick" else ["EOF", "MCA", "EOFRotator", "CPCCARotator", "POP"]):
-        for k in ("aux", "list12"):
+        for k in ("aux", "list12", "wlat"):
             for c in CODECS:
                 for ph in ("", "+ph"):
                     frontier.append(dict(model=mname, input=k, attrs="none", history=["codec:%s%s" % (c, ph)], leaf=True))
